@@ -4,6 +4,12 @@ import PortusModel.Props.C10
 import PortusModel.Props.C13
 import PortusModel.Props.C14
 import PortusModel.Props.C01Sim
+import PortusModel.Props.C01Decode
+#print axioms Portus.C01.run_correct_from_bytes
+#print axioms Portus.C01.run_decoded
+#print axioms Portus.C01.compiled_install_decodes
+#print axioms Portus.C01.install_decodes
+#print axioms Portus.C01.exSrc_decodes
 #print axioms Portus.C01.compiled_run_correct
 #print axioms Portus.C01.check_accepts_compiled
 #print axioms Portus.C01.exSrc_inTheorem
